@@ -292,11 +292,22 @@ impl CdnClient {
     ) -> Result<Vec<u8>> {
         let url = Self::build_url(endpoint, content_type, key)?;
 
+        // Last byte of the range; an empty range or one that ends beyond u64::MAX is a
+        // caller error, not an arithmetic overflow.
+        let last = length
+            .checked_sub(1)
+            .and_then(|l| offset.checked_add(l))
+            .ok_or_else(|| {
+                ProtocolError::Other(format!(
+                    "invalid byte range: offset {offset}, length {length}"
+                ))
+            })?;
+
         let response = self
             .http_client
             .inner()
             .get(&url)
-            .header("Range", format!("bytes={}-{}", offset, offset + length - 1))
+            .header("Range", format!("bytes={offset}-{last}"))
             .send()
             .await?;
 
